@@ -148,6 +148,14 @@ func GenQProgram(t *rapid.T, p QGenParams) *QProgram {
 	prog := &QProgram{Cfg: GenQConfig(t, p)}
 	var steps []QStep
 	reopen := func() {
+		// sometimes the queue is closed in the middle of an event: the unfinished
+		// event (possibly with part of it already flushed to the tail page) is dropped
+		if rapid.IntRange(0, 2).Draw(t, "unfinished") == 0 {
+			steps = append(steps, QStep{K: QWrite, A: genEventSize(t, prog.Cfg)})
+			if rapid.IntRange(0, 1).Draw(t, "flushUnfinished") == 0 {
+				steps = append(steps, QStep{K: QFlush})
+			}
+		}
 		k := QReopenQ
 		if rapid.IntRange(0, 1).Draw(t, "file") == 1 {
 			k = QReopenF
